@@ -120,6 +120,63 @@ def _lib_compile(vfs_dump: dict, main_abs: str, lookup_abs: list[str]) -> dict:
     return {"ok": model.compile_digest(c), "sm": c.source_map.serialize()}
 
 
+def _lib_compile_text(text: str) -> dict:
+    sut.quiet_logging()
+    return sut.compile_exps(text, "/sim/roundtrip.exps")
+
+
+def _ws(p):
+    if isinstance(p, dict) and p.get("t") == "str":
+        return {"t": "str", "v": " ".join(p["v"].split())}
+    if isinstance(p, dict) and p.get("t") == "lang":
+        return {"t": "lang", "v": [[k, " ".join(v.split())] for k, v in p["v"]]}
+    return p
+
+
+def effect_ops(routines: list) -> list:
+    """Sorted list of the reachable ops that DO something (everything but jumps, branches, cases and flow-ending ops), as
+    canonical strings, per routine kind: a necessary condition for two routine sets to behave alike that does not
+    depend on how control flow is laid out."""
+    from simkit.model import JUMP_PARAM_INDEX, FLOW_END
+
+    doc = {"routines": routines}
+    by_off = {}
+    order = []
+    for ri, r in enumerate(routines):
+        for i, o in enumerate(r["ops"]):
+            by_off[o["off"]] = (ri, i)
+            order.append(o["off"])
+    seen = set()
+    stack = [r["ops"][0]["off"] for r in routines if r["ops"]]
+    while stack:
+        off = stack.pop()
+        if off in seen or off not in by_off:
+            continue
+        seen.add(off)
+        ri, i = by_off[off]
+        o = routines[ri]["ops"][i]
+        ji = JUMP_PARAM_INDEX.get(o["op"])
+        if ji is not None and ji < len(o["params"]) and isinstance(o["params"][ji], int):
+            stack.append(o["params"][ji])
+        if o["op"] not in FLOW_END and i + 1 < len(routines[ri]["ops"]):
+            stack.append(routines[ri]["ops"][i + 1]["off"])
+    out = []
+    for off in order:
+        if off not in seen:
+            continue
+        ri, i = by_off[off]
+        o = routines[ri]["ops"][i]
+        if o["op"] in JUMP_PARAM_INDEX or o["op"] in FLOW_END:
+            continue
+        # a dungeon mode may be written as a number or as the constant the settings give that number
+        params = [sut.DMC.index(p_["v"]) if isinstance(p_, dict) and p_.get("t") == "const" and p_.get("v") in sut.DMC else p_ for p_ in o["params"]]
+        # white space inside string literals is C04's business (multi-line strings are indented when printed and
+        # dedented when parsed, which is not the identity for every content): compared modulo runs of white space
+        params = [_ws(p_) for p_ in params]
+        out.append(model.canon({"op": o["op"], "params": params}))
+    return sorted(out)
+
+
 def _lib_decompile(doc: dict) -> dict:
     sut.quiet_logging()
     return sut.decompile_exps(doc)
@@ -495,6 +552,19 @@ def run_world(item: dict) -> dict:
         got_view = _decoded_view(r2["decoded"], r2.get("decoded_coro_by_index", {}))
         if got_view != want_view:
             viol("hand-off-is-lossless", "decoded-routine-set-differs-from-compiled-one", {**base2, "first_difference": _view_diff(got_view, want_view)})
+        # ... "and yields a program behaving like the source" (necessary condition): compiled again, the text the decompile
+        # command printed has the same ops that do something - each with the same parameters - as the compiled source
+        rt = forkrun(_lib_compile_text, r2["stdout"], timeout=120)
+        res["processes"] += 1
+        if "raised" in rt:
+            viol("hand-off-yields-a-program-like-the-source", "printed-text-does-not-compile", {**base2, "raised": rt["raised"], "msg": rt.get("msg", "")[:200]})
+        else:
+            a_, b_ = effect_ops(lib["ok"]["routines"]), effect_ops(rt["ok"]["routines"])
+            if a_ != b_:
+                only_src = [x for x in a_ if x not in b_][:3]
+                only_rt = [x for x in b_ if x not in a_][:3]
+                viol("hand-off-yields-a-program-like-the-source", "effect-ops-differ",
+                     {**base2, "only_in_compiled_source": only_src, "only_after_round_trip": only_rt, "counts": [len(a_), len(b_)]})
         # the text printed is what the library gives for the decoded routine set
         dec = copy.deepcopy(r2["decoded"])
         for i, rr in enumerate(dec["routines"]):
